@@ -1,0 +1,22 @@
+//go:build verif
+
+package p2p
+
+// Verification hooks (build tag `verif` only; add-only, no production code path uses them).
+
+// VerifSplitLens runs the real split() — with the real maxDataChunkSize, exactly as MultiConn.Send calls
+// it — on a buffer of n zero bytes and returns the length of every chunk. split() only slices its
+// argument, so the buffer is never touched and a near-limit n costs no memory traffic.
+func VerifSplitLens(n int) []int {
+	chunks := split(make([]byte, n), int(maxDataChunkSize))
+	lens := make([]int, len(chunks))
+	for i, c := range chunks {
+		lens[i] = len(c)
+	}
+	return lens
+}
+
+// VerifMuxLimits returns the compiled-in limits (maxDataChunkSize, maxMessageSize, maxChunksPerPacket).
+func VerifMuxLimits() (chunk, maxMsg, maxChunks int) {
+	return int(maxDataChunkSize), int(maxMessageSize), maxChunksPerPacket
+}
